@@ -193,6 +193,16 @@ def api_handles(fail):
             e2.set_single_succ_outputs(*e2.inputs())
         cfg2.branch_exit(e2[0])
     check("add_cfg once the exit is branched to", cfg2, 2)
+    # every number of outputs 0..6, through the context-manager builder and through a stand-alone one
+    for k in range(7):
+        with d.add_nested(b) as nk:
+            nk.set_outputs(*[nk.inputs()[0]] * k)
+        check(f"add_nested(...).set_outputs({k} wires)", nk, k)
+        check(f"add_nested parent_node with {k} outputs", nk.parent_node, k)
+        ek = Dfg(tys.Bool)
+        ek.set_outputs(*[ek.inputs()[0]] * k)
+        check(f"Dfg(...).set_outputs({k} wires) parent_node", ek.parent_node, k)
+        check(f"insert_nested(dfg with {k} outputs)", d.insert_nested(ek, b), k)
     # containers whose output row is empty: the count 0 is a count like any other
     with d.add_nested(b) as n0:
         n0.set_outputs()
